@@ -285,7 +285,8 @@ def replay(ctx, ob):
         # compiled together with the CURRENT tree's AbstractIntegratorRep.cpp / Integrator.cpp / TimeStepper.cpp (they interpose the copies in the
         # private library build) and including the current IntegratorRep.h, so a mutated tree is replayed without rebuilding the libraries
         _exe["exe"] = native_build(ctx, "c22_replay", os.path.join(VERIF, "replay/c22_replay.cpp"),
-                                   extra_srcs=[ABSTRACT_CPP, INTEGRATOR_CPP, TIMESTEPPER_CPP], libs=True, extra_inc=[INTEG_SRC], timeout=900)
+                                   extra_srcs=[ABSTRACT_CPP, INTEGRATOR_CPP, TIMESTEPPER_CPP, B.SYSTEM_CPP], libs=True,
+                                   extra_inc=[INTEG_SRC, os.path.dirname(B.SYSTEM_CPP)], timeout=900)
     exe = _exe["exe"]
     tries = []
     def go(args, t=300):
